@@ -300,6 +300,8 @@ def mkval(v, classes):
         return tuple(mkval(x, classes) for x in v["items"])
     if t == "cinst":
         return CT[(v["ck"], v["cw"])].from_buffer_copy(bytes(v["raw"]))
+    if t == "carr":
+        return (CT[(v["ck"], v["cw"])] * v["n"]).from_buffer_copy(bytes(v["raw"]))
     if t == "struct":
         return classes[v["cls"]].from_buffer_copy(bytes(v["raw"]))
     if t in ("arr", "sarr"):
